@@ -350,6 +350,14 @@ def replay_file(pid, path):
     if line[1] == "helper":
         import c04
         return c04.replay_generated(pid, path)
+    if line[1] == "lexlayout":
+        import lex_props
+        bad, text = lex_props.layout_native(log_dir)
+        say(text)
+        if bad:
+            say(f"VIOLATION property={pid} replay={path}")
+            return 1
+        return 0
     return 2
 
 
